@@ -168,13 +168,20 @@ func (t *textSec) encoders(s string) {
 		enc, ok := asStr(r)
 		dec, err := base64.StdEncoding.DecodeString(enc)
 		if !ok || err != nil || string(dec) != s {
-			w.Violation("base64_encode:reference-reads-differently:"+sig(vStr(s)), fmt.Sprintf("base64_encode(%q) = %s; encoding/base64 reads %q (err %v)", s, describe(r), dec, err), "bin", []byte(s))
+			w.Violation("base64_encode:reference-reads-differently:"+sig(vStr(shrinkStr(s, func(x string) bool {
+				e, ok := asStr(b.Call("base64_encode(verif_in(0))", sv(x)))
+				d, err := base64.StdEncoding.DecodeString(e)
+				return !ok || err != nil || string(d) != x
+			}))), fmt.Sprintf("base64_encode(%q) = %s; encoding/base64 reads %q (err %v)", s, describe(r), dec, err), "bin", []byte(s))
 		} else {
 			nontrivial = true
 			r2 := b.Call("base64_decode(verif_in(0))", sv(enc))
 			if !t.crash("base64_decode", r2, enc) {
 				if d2, ok := asStr(r2); !ok || d2 != s {
-					w.Violation("base64_decode:not-inverse:"+sig(vStr(s)), fmt.Sprintf("base64_decode(base64_encode(%q)) = %s", s, describe(r2)), "bin", []byte(s))
+					w.Violation("base64_decode:not-inverse:"+sig(vStr(shrinkStr(s, func(x string) bool {
+						d, ok := asStr(b.Call("base64_decode(verif_in(0))", sv(base64.StdEncoding.EncodeToString([]byte(x)))))
+						return !ok || d != x
+					}))), fmt.Sprintf("base64_decode(base64_encode(%q)) = %s", s, describe(r2)), "bin", []byte(s))
 				}
 			}
 			r3 := b.Call("base64_decode(verif_in(0), true)", sv(enc))
@@ -192,7 +199,11 @@ func (t *textSec) encoders(s string) {
 		enc, ok := asStr(r)
 		dec, err := hex.DecodeString(enc)
 		if !ok || err != nil || string(dec) != s || enc != strings.ToLower(enc) {
-			w.Violation("bin2hex:reference-reads-differently:"+sig(vStr(s)), fmt.Sprintf("bin2hex(%q) = %s; encoding/hex reads %q (err %v)", s, describe(r), dec, err), "bin", []byte(s))
+			w.Violation("bin2hex:reference-reads-differently:"+sig(vStr(shrinkStr(s, func(x string) bool {
+				e, ok := asStr(b.Call("bin2hex(verif_in(0))", sv(x)))
+				d, err := hex.DecodeString(e)
+				return !ok || err != nil || string(d) != x || e != strings.ToLower(e)
+			}))), fmt.Sprintf("bin2hex(%q) = %s; encoding/hex reads %q (err %v)", s, describe(r), dec, err), "bin", []byte(s))
 		}
 	}
 
@@ -213,11 +224,19 @@ func (t *textSec) encoders(s string) {
 			t.judge(fn+":path-unsafe", s, pathReads(enc, s),
 				fmt.Sprintf("rawurlencode(%q) = %q, which net/url does not read back as the same path segment", s, enc))
 			if d, err := url.PathUnescape(enc); err != nil || d != s {
-				w.Violation(fn+":reference-reads-differently:"+sig(vStr(s)), fmt.Sprintf("url.PathUnescape(rawurlencode(%q) = %q) = %q, %v", s, enc, d, err), "bin", []byte(s))
+				w.Violation(fn+":reference-reads-differently:"+sig(vStr(shrinkStr(s, func(x string) bool {
+					e, _ := asStr(b.Call(fn+"(verif_in(0))", sv(x)))
+					d, err := url.PathUnescape(e)
+					return err != nil || d != x
+				}))), fmt.Sprintf("url.PathUnescape(rawurlencode(%q) = %q) = %q, %v", s, enc, d, err), "bin", []byte(s))
 			}
 		} else {
 			if d, err := url.QueryUnescape(enc); err != nil || d != s {
-				w.Violation(fn+":reference-reads-differently:"+sig(vStr(s)), fmt.Sprintf("url.QueryUnescape(urlencode(%q) = %q) = %q, %v", s, enc, d, err), "bin", []byte(s))
+				w.Violation(fn+":reference-reads-differently:"+sig(vStr(shrinkStr(s, func(x string) bool {
+					e, _ := asStr(b.Call(fn+"(verif_in(0))", sv(x)))
+					d, err := url.QueryUnescape(e)
+					return err != nil || d != x
+				}))), fmt.Sprintf("url.QueryUnescape(urlencode(%q) = %q) = %q, %v", s, enc, d, err), "bin", []byte(s))
 			}
 		}
 		dfn := strings.Replace(fn, "encode", "decode", 1)
